@@ -594,6 +594,217 @@ def _d5_d6(chk, fb):
                         chk.proved("D5", f.key, "probe-in-try", f.loc(c), "probe inside try/handler")
 
 
+def _d8(chk, fb):
+    """the member that getValue() of a scheme returns is refreshed by every update: every path through updateDerivatives to a
+    normal exit stores function_->getValue() into it (directly, through a local lambda, or in a probing helper that stores it
+    on every path of its own)"""
+    n = 0
+    for S in SCHEMES:
+        gv = [g for g in fb.q(S + "::getValue") if g.body is not None]
+        f = fb.q1(S + "::updateDerivatives")
+        if not gv:
+            continue
+        rets = [strip(kids(r)[0]) for r in walk(gv[0].body) if r["k"] == "ReturnStmt" and kids(r)]
+        if len(rets) != 1 or rets[0]["k"] != "MemberExpr" or strip(kids(rets[0])[0])["k"] != "CXXThisExpr":
+            chk.unknown("D8", gv[0].key, "served-value-refreshed", gv[0].loc(), "getValue() does not return one member directly")
+            n += 1
+            continue
+        V = rets[0]["member"]["qname"]
+        vname = rets[0]["member"]["name"]
+        n += 1
+
+        def stores(g):
+            out = []
+            for (_, node, kind) in fb.field_writes(V, [g]):
+                if kind == "assign" and node.get("op") == "=" and any(is_call(x) and x["callee"]["name"] == "getValue" for x in walk(kids(node)[1])):
+                    out.append(node)
+                elif kind.startswith("byref:"):
+                    out.append(node)
+            return out
+        blocks = set()
+        opaque = None
+        for node in stores(f):
+            sites = e1.lift_to_call_sites(f, node)
+            if sites is None:
+                opaque = "a store sits in a lambda that is not called by name"
+                continue
+            for x in sites:
+                blocks.add(f.cfg.stmt_block(x))
+        for c, t in _helpers(fb, f):
+            st = stores(t)
+            if st and e1.must_pass(t.cfg, {t.cfg.stmt_block(x) for x in st})[0]:
+                blocks.add(f.cfg.stmt_block(c))
+            elif st:
+                opaque = "helper %s stores it on some paths only" % t.name
+        blocks.discard(None)
+        ok, path = e1.must_pass(f.cfg, blocks)
+        if ok:
+            chk.proved("D8", f.key, "served-value-refreshed:" + vname, f.loc(), "every path to a normal exit stores function_->getValue() into %s, the member getValue() returns" % vname)
+        elif opaque:
+            chk.unknown("D8", f.key, "served-value-refreshed:" + vname, f.loc(), opaque)
+        else:
+            chk.refuted("D8", f.key, "served-value-refreshed:" + vname, f.loc(),
+                        "getValue() returns %s, but a path through updateDerivatives reaches the normal exit without storing function_->getValue() into it (blocks %s): the wrapper then serves the value of an earlier point" % (vname, path),
+                        witness={"history": "setParameters(p1) with derivatives on, then switch first-order derivatives off (or select no variable), setParameters(p2), getValue()", "path": path})
+    chk.floor("D8", "schemes with a served value member", n, 3)
+
+
+def _d9(chk, fb):
+    """(E7) a probing step never vanishes: the initial value of every step local (what the probes add to the value in
+    p[k].setValue(value +- STEP)), read as a real function of the parameter value it is scaled by, has no real zero.  A zero step
+    evaluates the function twice at one point and divides by zero in every difference quotient.  The configured interval
+    (a member) is taken to be positive; a step in a form the translator does not read is not judged"""
+    import sympy as sp
+
+    class No(Exception):
+        pass
+    n = 0
+    for S in SCHEMES:
+        f = fb.q1(S + "::updateDerivatives")
+        for g in [f] + [t for _, t in _helpers(fb, f)]:
+            decls = {}
+            for x in walk(g.body):
+                if x["k"] == "DeclStmt":
+                    for d in x["decls"]:
+                        if d.get("init") is not None:
+                            decls[d["id"]] = (d, x)
+            steps = {}
+            for x in g.calls():
+                if x["callee"]["name"] == "setValue" and g.args(x):
+                    a_ = strip(g.args(x)[0])
+                    if a_["k"] == "BinaryOperator" and a_["op"] in ("+", "-"):
+                        for r_ in walk(kids(a_)[1]):
+                            if r_["k"] == "DeclRefExpr" and r_["decl"]["id"] in decls and "double" in (r_.get("ty") or "double"):
+                                steps[r_["decl"]["id"]] = r_["decl"]["name"]
+            vals = {}
+
+            def sx(e, depth=0):
+                e = strip(e)
+                k = e["k"]
+                if k == "IntegerLiteral":
+                    return sp.Integer(int(e["val"]))
+                if k == "FloatingLiteral":
+                    return sp.nsimplify(e["val"], rational=True)
+                if k == "MemberExpr" and e["member"].get("this"):
+                    return sp.Symbol("F_" + e["member"]["name"], positive=True)
+                if k == "UnaryOperator" and e["op"] in ("-", "+") and not e.get("postfix"):
+                    v = sx(kids(e)[0], depth)
+                    return -v if e["op"] == "-" else v
+                if k == "BinaryOperator" and e["op"] in ("+", "-", "*", "/"):
+                    a, b = sx(kids(e)[0], depth), sx(kids(e)[1], depth)
+                    return {"+": a + b, "-": a - b, "*": a * b, "/": a / b}[e["op"]]
+                if is_call(e) and e["callee"]["name"] in ("abs", "fabs") and len(g.args(e)) == 1:
+                    return sp.Abs(sx(g.args(e)[0], depth))
+                if k == "DeclRefExpr":
+                    d = e["decl"]
+                    if d["id"] in decls and depth < 4:
+                        ini = decls[d["id"]][0]["init"]
+                        if any(is_call(y) and y["callee"]["name"] in ("getParameterValue", "getValue") for y in walk(ini)):
+                            vals[d["name"]] = sp.Symbol("V_" + d["name"], real=True)
+                            return vals[d["name"]]
+                        return sx(ini, depth + 1)
+                raise No(render(e)[:60])
+            for did, name in sorted(steps.items(), key=lambda kv: kv[1]):
+                d, stmt = decls[did]
+                n += 1
+                con = "step-never-zero:" + name
+                try:
+                    vals.clear()
+                    ex = sx(d["init"])
+                except No as why:
+                    chk.unknown("D9", g.key, con, g.loc(stmt), "initial value of the step not in a form this rule reads (%s)" % why)
+                    continue
+                if len(vals) > 1:
+                    chk.unknown("D9", g.key, con, g.loc(stmt), "step depends on several parameter values")
+                    continue
+                if not vals:
+                    z = sp.simplify(ex)
+                    if z == 0:
+                        chk.refuted("D9", g.key, con, g.loc(stmt), "the step '%s' is identically zero" % render(d["init"]))
+                    else:
+                        chk.proved("D9", g.key, con, g.loc(stmt), "%s = %s, never zero for a positive interval" % (name, z))
+                    continue
+                v = list(vals.values())[0]
+                try:
+                    sol = sp.solveset(ex, v, sp.S.Reals)
+                except Exception:
+                    sol = None
+                if sol is not None and sol == sp.S.EmptySet:
+                    chk.proved("D9", g.key, con, g.loc(stmt), "%s = %s has no real zero" % (name, ex))
+                elif isinstance(sol, sp.FiniteSet) and len(sol) >= 1:
+                    z0 = sorted(sol, key=str)[0]
+                    chk.refuted("D9", g.key, con, g.loc(stmt),
+                                "the step '%s = %s' vanishes when the parameter value is %s: both probes are then taken at the unshifted point and the difference quotients divide by zero (NaN or inf derivatives)" % (name, render(d["init"]), z0),
+                                witness={"parameter_value": str(z0), "step": str(ex)})
+                else:
+                    chk.unknown("D9", g.key, con, g.loc(stmt), "zero set of %s not decided" % ex)
+    chk.floor("D9", "probing steps", n, 3)
+
+
+def _d10(chk, fb):
+    """a variable-name local that is declared empty never reaches a parameter lookup while it may still be empty: for every
+    place where such a local flows into createSubList (directly, or through an element of a name vector), no path from the
+    entry reaches it without an assignment to the local.  Paths are followed with the state of boolean flags and small loop
+    counters (E1 reach_with_state); a branch that tests the local itself ends the path.  An empty name makes createSubList throw
+    ParameterNotFoundException out of an update"""
+    n = 0
+    for S in SCHEMES:
+        f = fb.q1(S + "::updateDerivatives")
+        for g in [f] + [t for _, t in _helpers(fb, f)]:
+            cfg = g.cfg
+            for st in [x for x in walk(g.body) if x["k"] == "DeclStmt"]:
+                for d in st["decls"]:
+                    if "basic_string" not in (d.get("ty") or "") or "vector" in d["ty"] or d["ty"].startswith("const ") or d["ty"].endswith("&"):
+                        continue
+                    ini = d.get("init")
+                    si = strip(ini) if ini is not None else None
+                    if not (ini is None or (si["k"] == "CXXConstructExpr" and not kids(si)) or (si["k"] == "StringLiteral" and si.get("val") in ("", '""'))):
+                        continue
+                    did, name = d["id"], d["name"]
+
+                    def is_l(x):
+                        x = strip(x)
+                        return x is not None and x["k"] == "DeclRefExpr" and x["decl"]["id"] == did
+                    assigns, uses = [], []
+                    for c in g.calls():
+                        if c["callee"]["via"] == "operator" and c.get("op") == "=" and "obj" in c:
+                            if is_l(g.obj(c)):
+                                assigns.append(c)
+                            elif g.args(c) and is_l(g.args(c)[0]) and is_call(strip(g.obj(c))) and strip(g.obj(c)).get("op") == "[]":
+                                uses.append(c)
+                        elif c["callee"]["name"] in ("createSubList", "push_back", "emplace_back") and any(is_l(a) for a in g.args(c)):
+                            uses.append(c)
+                        else:
+                            pt = c["callee"].get("ptypes") or []
+                            for idx, a in enumerate(g.args(c)):
+                                if is_l(a) and idx < len(pt) and pt[idx].endswith("&") and not pt[idx].startswith("const "):
+                                    assigns.append(c)
+                    if not uses:
+                        continue
+                    ablocks = {cfg.stmt_block(a) for a in assigns}
+
+                    def tests_local(facts_):
+                        return any(any(x["k"] == "DeclRefExpr" and x["decl"]["id"] == did for x in walk(nd)) for _, _, nd in facts_ if nd is not None)
+                    for u in uses:
+                        n += 1
+                        ub = cfg.stmt_block(u)
+                        con = "name-set-before-lookup:%s@%s" % (name, render(u)[:40])
+                        if ub is None:
+                            chk.unknown("D10", g.key, con, g.loc(u), "use not located in the flow graph")
+                            continue
+                        if any(cfg.stmt_block(a) == ub and e1.earlier_in_block(cfg, a, u) for a in assigns):
+                            chk.proved("D10", g.key, con, g.loc(u), "assigned earlier in the same block")
+                            continue
+                        path = e1.reach_with_state(g, cfg, {ub}, avoid_blocks=ablocks - {ub}, blocking=tests_local)
+                        if path is None:
+                            chk.proved("D10", g.key, con, g.loc(u), "every path to this lookup (flags and small counters followed) assigns '%s' first" % name)
+                        else:
+                            chk.refuted("D10", g.key, con, g.loc(u),
+                                        "'%s' is declared empty and reaches this parameter lookup along a path on which it was never assigned (blocks %s): createSubList(\"\") throws ParameterNotFoundException out of the update" % (name, path),
+                                        witness={"path": path, "history": "an update whose parameter list does not contain the first selected variable but contains a later one"})
+    chk.floor("D10", "empty-declared name locals flowing into a lookup", n, 3)
+
+
 def run(chk, fb, tier):
     chk.rule("D1", "setParameters / setAllParametersValues / setParameterValue / setParametersValues / matchParametersValues / f forward to function_ and then call updateDerivatives with what was set")
     chk.rule("D2", "every variable-name local whose parameter is shifted by p[k].setValue for a probe flows into function_->setParameters(parameters.createSubList(L)) or the whole argument is restored, on every path to the normal exit")
@@ -612,6 +823,12 @@ def run(chk, fb, tier):
                    "p[k].setValue / function_->setParameters / fK_ = function_->getValue()), differentiates exactly every polynomial of degree <= max(order, points-1) "
                    "(mixed derivative: total degree 2), identically in the step symbols")
     fdiff.check(chk, fb, "D7", [s + "::updateDerivatives" for s in SCHEMES], 8)
+    chk.rule("D8", "the member returned by getValue() of each scheme is assigned function_->getValue() on every path of updateDerivatives to a normal exit")
+    _d8(chk, fb)
+    chk.rule("D9", "E7: the initial value of every probing step, as a real function of the parameter value it is scaled by, has no real zero (interval member positive)")
+    _d9(chk, fb)
+    chk.rule("D10", "E1 reach_with_state: a variable-name local declared empty is assigned on every feasible path before it flows into createSubList / a name vector")
+    _d10(chk, fb)
     from . import copyrule
     chk.rule("DC", "copy constructor and copy assignment copy the same members; operator= empties a member container before re-populating it; copy functions never assign through a stored shared pointer")
     copyrule.check(chk, fb, "DC", lambda c: c["file"].endswith(("Bpp/Numeric/Function/NumericalDerivative.h",)), floor=1)
